@@ -55,7 +55,7 @@ class C03(Scenario):
     prop = "C03"
     level = "exploration"
     profiles = ["dict", "frame", "rec", "dict-awkward", "frame-awkward", "rec-awkward"]
-    budgets = {"quick": 8000, "thorough": 150000}
+    budgets = {"quick": 20000, "thorough": 400000}
     wall_caps = {"quick": 110, "thorough": 1500}
     rule = ("one run = one tree with >= 1 quantity-bearing node, one chunk of <= 30 (quick) / 150 (thorough) rows from the "
             "critical alphabet (on edges, at high, NaN, +-inf; awkward profiles add 1-3 ulp probes and 1e300), one weight "
